@@ -524,15 +524,14 @@ impl Repr {
                 },
                 capacity,
             },
-            n => {
+            _ => {
                 let mut buffer = Buffer::allocate_exact(cap as usize);
                 buffer.push_slice(words);
-                let ptr = buffer.as_mut_ptr();
-                mem::forget(buffer);
-                Repr {
-                    data: ReprData { heap: (ptr, n) },
-                    capacity,
-                }
+                // SAFETY: same conversion as in `from_buffer` (Buffer and Repr share their layout);
+                //         only the sign is put onto the capacity afterwards
+                let mut repr: Repr = unsafe { mem::transmute(buffer) };
+                repr.capacity = capacity;
+                repr
             }
         }
     }
